@@ -11,10 +11,12 @@ DRIVER = "drv_C15.ml"
 HARNESS = "h_C15.cpp"
 VARIANTS = {"quick": ["O1"], "thorough": ["O1", "asan"]}
 AXIOMS_ALLOWED = runner.REAL_AXIOMS     # only the log-sum-exp theorems (over R) use them; the matrix theorems print "Closed"
-CLOSED_THEOREMS = ["C15_woodbury", "C15_det_lemma", "C15_capacitance_invertible", "C15_blockdiag_inverse",
-                   "C15_blockdiag_det", "C15_uvr_eq_direct", "C15_uvr_eq_direct_per_block", "C15_uvr_eq_direct_shared",
-                   "C15_density_uvr_exp", "C15_density_exp", "C15_logdensity_def"]
-REQUIRED_THEOREMS = CLOSED_THEOREMS + ["C15_lse_spec", "C15_lse_shift", "C15_lse_no_overflow", "C15_lse_neginf"]
+CLOSED_THEOREMS = ["C15_det_lemma", "C15_capacitance_invertible", "C15_woodbury", "C15_blockdiag_entries", "C15_blockdiag_inverse",
+                   "C15_blockdiag_det", "C15_uvr_det", "C15_uvr_eq_direct", "C15_uvr_eq_direct_per_block", "C15_uvr_eq_direct_shared",
+                   "C15_uvr_capacitance_invertible", "C15_density_uvr_exp", "C15_density_exp", "C15_batch_lengths", "C15_logdensity_def"]
+REQUIRED_THEOREMS = CLOSED_THEOREMS + ["C15_lse_spec", "C15_lse_shift", "C15_lse_max_is_entry", "C15_lse_no_overflow", "C15_lse_neginf",
+                                       "C15_lse_all_neginf_is_nan"]
+COQ_PREFIXES = ["C15", "C19"]           # C15_ROps / C15_RProofs import the shared real instance ROps of C19_ROps.v
 RULE = ("cases from one seeded stream. uvr: num_blocks 1..4, block_size with d = num_blocks*block_size <= 8, batch 1..5, k 1..4, "
         "R shared (one block) or per block (SPD blocks, cond <= 1e3), V = U^T / W U^T (W symmetric) / general (S not symmetric, symmetric part PD) / zero, "
         "assembled S with cond <= 1e6, evaluation points near the mean and far away; lse: length 1..50, entries in [-1e4,1e4] "
@@ -176,13 +178,13 @@ def nontrivial(c):
 
 def tol_direct(c, ldmag):
     condS, q = float(c.meta["condS"]), float(c.meta["q"])
-    return 500 * EPS * (condS * (q + 1.0) + ldmag + 10.0)
+    return 8 * EPS * (condS * (q + 1.0) + ldmag + 10.0)
 
 
 def tol_uvr(c, ldmag):
     condS, condR, condM = float(c.meta["condS"]), float(c.meta["condR"]), float(c.meta["condM"])
     q1, q2 = float(c.meta["q1"]), float(c.meta["q2"])
-    return 500 * EPS * ((condR + condM) * (q1 + q2 + 1.0) + condS + ldmag + 10.0)
+    return 8 * EPS * ((condR + condM) * (q1 + q2 + 1.0) + condS + ldmag + 10.0)
 
 
 def close_log(a, b, tol):
